@@ -163,6 +163,224 @@ pub fn ops<T: MontConfig<N>, const N: usize>(fl: &str, name: &str, rng: &mut Rng
         let r = guarded(move || { ark_ff::fields::batch_inversion_and_mul(&mut v, &coeff); if v.is_empty() { "_".to_string() } else { v.iter().map(|x| h(&x.0 .0)).collect::<Vec<_>>().join(",") } });
         out.line(&inp, &r);
     }
+    gap_ops::<T, N>(&pfx, name, &vals, p_small, rng, thorough, out);
+}
+
+
+// ---------------------------------------------------------------------------------------------
+// coverage-gap ops: operator receiver variants, Div, Sum/Product, From<int>, inverse_in_place,
+// trait-default bodies of AdditiveGroup, Zeroize, FromStr error cases, …
+// ---------------------------------------------------------------------------------------------
+
+/// a group that implements `AdditiveGroup` WITHOUT overriding `double_in_place` / `neg_in_place`
+/// (every implementor in /repo overrides them): runs the trait's default bodies on `Fp`'s operators
+pub struct Wr<T: MontConfig<N>, const N: usize>(pub F<T, N>);
+mod wr_impls {
+    use super::{Wr, F};
+    use ark_ff::{AdditiveGroup, MontConfig, Zero};
+    use ark_serialize::{CanonicalDeserialize, CanonicalSerialize, Compress, SerializationError, Valid, Validate};
+    use ark_std::rand::{distributions::{Distribution, Standard}, Rng};
+    use core::ops::{Add, AddAssign, Mul, MulAssign, Neg, Sub, SubAssign};
+    impl<T: MontConfig<N>, const N: usize> Clone for Wr<T, N> { fn clone(&self) -> Self { *self } }
+    impl<T: MontConfig<N>, const N: usize> Copy for Wr<T, N> {}
+    impl<T: MontConfig<N>, const N: usize> PartialEq for Wr<T, N> { fn eq(&self, o: &Self) -> bool { self.0 == o.0 } }
+    impl<T: MontConfig<N>, const N: usize> Eq for Wr<T, N> {}
+    impl<T: MontConfig<N>, const N: usize> core::hash::Hash for Wr<T, N> { fn hash<H: core::hash::Hasher>(&self, h: &mut H) { self.0.hash(h) } }
+    impl<T: MontConfig<N>, const N: usize> core::fmt::Debug for Wr<T, N> { fn fmt(&self, f: &mut core::fmt::Formatter<'_>) -> core::fmt::Result { write!(f, "{:?}", self.0) } }
+    impl<T: MontConfig<N>, const N: usize> core::fmt::Display for Wr<T, N> { fn fmt(&self, f: &mut core::fmt::Formatter<'_>) -> core::fmt::Result { write!(f, "{}", self.0) } }
+    impl<T: MontConfig<N>, const N: usize> Default for Wr<T, N> { fn default() -> Self { Wr(F::<T, N>::default()) } }
+    impl<T: MontConfig<N>, const N: usize> zeroize::Zeroize for Wr<T, N> { fn zeroize(&mut self) { self.0.zeroize() } }
+    impl<T: MontConfig<N>, const N: usize> Zero for Wr<T, N> {
+        fn zero() -> Self { Wr(F::<T, N>::zero()) }
+        fn is_zero(&self) -> bool { self.0.is_zero() }
+    }
+    impl<T: MontConfig<N>, const N: usize> Neg for Wr<T, N> { type Output = Self; fn neg(self) -> Self { Wr(-self.0) } }
+    macro_rules! bin {
+        ($tr:ident, $f:ident, $tra:ident, $fa:ident, $rhs:ty) => {
+            impl<'a, T: MontConfig<N>, const N: usize> $tr<$rhs> for Wr<T, N> { type Output = Self; fn $f(self, o: $rhs) -> Self { Wr(self.0.$f(o.0)) } }
+            impl<'a, T: MontConfig<N>, const N: usize> $tra<$rhs> for Wr<T, N> { fn $fa(&mut self, o: $rhs) { self.0.$fa(o.0) } }
+        };
+    }
+    bin!(Add, add, AddAssign, add_assign, Wr<T, N>);
+    bin!(Add, add, AddAssign, add_assign, &'a Wr<T, N>);
+    bin!(Add, add, AddAssign, add_assign, &'a mut Wr<T, N>);
+    bin!(Sub, sub, SubAssign, sub_assign, Wr<T, N>);
+    bin!(Sub, sub, SubAssign, sub_assign, &'a Wr<T, N>);
+    bin!(Sub, sub, SubAssign, sub_assign, &'a mut Wr<T, N>);
+    impl<T: MontConfig<N>, const N: usize, S: core::borrow::Borrow<F<T, N>>> Mul<S> for Wr<T, N> { type Output = Self; fn mul(self, o: S) -> Self { Wr(self.0 * *o.borrow()) } }
+    impl<T: MontConfig<N>, const N: usize, S: core::borrow::Borrow<F<T, N>>> MulAssign<S> for Wr<T, N> { fn mul_assign(&mut self, o: S) { self.0 *= *o.borrow() } }
+    impl<T: MontConfig<N>, const N: usize> core::iter::Sum<Self> for Wr<T, N> { fn sum<I: Iterator<Item = Self>>(i: I) -> Self { i.fold(Self::zero(), |a, b| a + b) } }
+    impl<'a, T: MontConfig<N>, const N: usize> core::iter::Sum<&'a Self> for Wr<T, N> { fn sum<I: Iterator<Item = &'a Self>>(i: I) -> Self { i.fold(Self::zero(), |a, b| a + b) } }
+    impl<T: MontConfig<N>, const N: usize> CanonicalSerialize for Wr<T, N> {
+        fn serialize_with_mode<W: ark_serialize::Write>(&self, w: W, c: Compress) -> Result<(), SerializationError> { self.0.serialize_with_mode(w, c) }
+        fn serialized_size(&self, c: Compress) -> usize { self.0.serialized_size(c) }
+    }
+    impl<T: MontConfig<N>, const N: usize> Valid for Wr<T, N> { fn check(&self) -> Result<(), SerializationError> { self.0.check() } }
+    impl<T: MontConfig<N>, const N: usize> CanonicalDeserialize for Wr<T, N> {
+        fn deserialize_with_mode<R: ark_serialize::Read>(r: R, c: Compress, v: Validate) -> Result<Self, SerializationError> { F::<T, N>::deserialize_with_mode(r, c, v).map(Wr) }
+    }
+    impl<T: MontConfig<N>, const N: usize> Distribution<Wr<T, N>> for Standard {
+        fn sample<R: Rng + ?Sized>(&self, rng: &mut R) -> Wr<T, N> { Wr(<Standard as Distribution<F<T, N>>>::sample(self, rng)) }
+    }
+    impl<T: MontConfig<N>, const N: usize> AdditiveGroup for Wr<T, N> {
+        type Scalar = F<T, N>;
+        const ZERO: Self = Wr(<F<T, N> as AdditiveGroup>::ZERO);
+        // no overrides: `double`, `double_in_place`, `neg_in_place` are the trait's default bodies
+    }
+}
+
+/// the seven receiver shapes of a binary operator on `Fp` (`Fp ⊕ Fp`, `Fp ⊕ &Fp`, `&Fp ⊕ &Fp`, `Fp ⊕ &mut Fp`,
+/// `⊕= Fp`, `⊕= &Fp`, `⊕= &mut Fp`)
+macro_rules! variant {
+    ($x:expr, $y:expr, $v:expr, $op:tt, $opa:tt) => {{
+        let x = $x;
+        let mut y = $y;
+        match $v {
+            0 => x $op y,
+            1 => x $op &y,
+            2 => &x $op &y,
+            3 => x $op &mut y,
+            4 => { let mut z = x; z $opa y; z }
+            5 => { let mut z = x; z $opa &y; z }
+            _ => { let mut z = x; z $opa &mut y; z }
+        }
+    }};
+}
+
+const FEATURED: [&str; 17] = ["M61", "P64m59", "Goldilocks", "M127", "P128m159", "P192m237", "Secp256k1", "Bls381Fr", "Full13",
+    "T13x2", "M61x2", "M61x3", "T251x4", "bls12_381::Fr", "mnt4_753::Fq", "fp128::Fq", "secp256k1::Fq"];
+
+fn hi128(v: i128) -> String { if v < 0 { format!("-{:x}", v.unsigned_abs()) } else { format!("{:x}", v) } }
+
+fn gap_ops<T: MontConfig<N>, const N: usize>(pfx: &str, name: &str, vals: &[[u64; N]], p_small: bool, rng: &mut Rng, thorough: bool, out: &mut Out) {
+    use ark_serialize::Valid;
+    use core::str::FromStr;
+    let m = vals.len();
+    let p = big(&T::MODULUS.0);
+    let tiny = N == 1 && T::MODULUS.0[0] < 256;
+    let feat = thorough || tiny || FEATURED.contains(&name);
+    let pick = |rng: &mut Rng| vals[rng.below(m as u64) as usize];
+    // inverse_in_place (zero and non-zero): returned value and `self` afterwards
+    for (idx, a) in vals.iter().enumerate() {
+        if !(thorough || p_small || idx < 4 || idx % (if N >= 7 { 29 } else { 13 }) == 0) { continue; }
+        let mut x = el::<T, N>(a);
+        let r = x.inverse_in_place().map(|v| *v);
+        out.line(&format!("C01 invip {} {}", pfx, h(a)), &format!("{} {}", opt(r), h(&x.0 .0)));
+    }
+    // selected operands: 0, 1, -1, the element with raw value 1, random
+    let one = F::<T, N>::one();
+    let mut sel: Vec<[u64; N]> = vec![[0u64; N], one.0 .0, (-one).0 .0];
+    if feat { let mut r1 = [0u64; N]; r1[0] = 1; sel.push(r1); }
+    if thorough { sel.push(limbs_of::<N>(&((&p - 1u8) / 2u8))); sel.push(pick(rng)); }
+    sel.push(pick(rng));
+    let mut pairs: Vec<([u64; N], [u64; N])> = Vec::new();
+    if p_small && m <= 13 { for a in vals { for b in vals { pairs.push((*a, *b)); } } }
+    else {
+        // (inversions on the long moduli dominate the driver's time: fewer pairs there)
+        let k = if !thorough && N >= 7 && !feat { 3 } else { sel.len() };
+        for a in sel.iter().take(k) { for b in sel.iter().take(k) { pairs.push((*a, *b)); } }
+        for _ in 0..(if thorough { 60 } else if k == 3 { 1 } else { 5 }) { pairs.push((pick(rng), pick(rng))); }
+    }
+    // every pair: one Div/DivAssign variant; add, sub, mul take turns (quick) — 21 consecutive pairs run
+    // through all 7 receiver shapes of each of them
+    for (t, (a, b)) in pairs.iter().enumerate() {
+        let (x, y) = (el::<T, N>(a), el::<T, N>(b));
+        let (xh, yh) = (h(a), h(b));
+        let all = thorough || p_small;
+        if all || t % 3 == 0 { out.line(&format!("C01 add {} {} {}", pfx, xh, yh), &h(&variant!(x, y, t % 7, +, +=).0 .0)); }
+        if all || t % 3 == 1 { out.line(&format!("C01 sub {} {} {}", pfx, xh, yh), &h(&variant!(x, y, (t + 2) % 7, -, -=).0 .0)); }
+        if all || t % 3 == 2 { out.line(&format!("C01 mul {} {} {}", pfx, xh, yh), &h(&variant!(x, y, (t + 4) % 7, *, *=).0 .0)); }
+        out.line(&format!("C01 div {} {} {}", pfx, xh, yh), &guarded(|| h(&variant!(x, y, (t + 6) % 7, /, /=).0 .0)));
+    }
+    // Sum / Product, owned and by reference
+    let mut lens = vec![0usize, 1, 3, 17];
+    if feat { lens.push(2); lens.push(8); }
+    if thorough { lens.push(100); }
+    for len in lens {
+        let mut v: Vec<F<T, N>> = (0..len).map(|_| el::<T, N>(&pick(rng))).collect();
+        if len >= 3 && rng.below(2) == 0 { for x in v.iter_mut() { *x = -one; } }
+        let l = if v.is_empty() { "_".to_string() } else { v.iter().map(|x| h(&x.0 .0)).collect::<Vec<_>>().join(",") };
+        out.line(&format!("C01 sum {} {}", pfx, l), &h(&v.iter().copied().sum::<F<T, N>>().0 .0));
+        out.line(&format!("C01 sum {} {}", pfx, l), &h(&v.iter().sum::<F<T, N>>().0 .0));
+        // products: avoid the all-(-1) vectors collapsing to ±1 only: mix in random factors
+        if len >= 3 { v[1] = el::<T, N>(&pick(rng)); }
+        let l = if v.is_empty() { "_".to_string() } else { v.iter().map(|x| h(&x.0 .0)).collect::<Vec<_>>().join(",") };
+        out.line(&format!("C01 prod {} {}", pfx, l), &h(&v.iter().copied().product::<F<T, N>>().0 .0));
+        out.line(&format!("C01 prod {} {}", pfx, l), &h(&v.iter().product::<F<T, N>>().0 .0));
+    }
+    // AdditiveGroup trait defaults through the wrapper group; Zeroize; Valid; From<Fp> for BigInt
+    for (i, a) in sel.iter().enumerate() {
+        if !thorough && i >= 3 && i + 1 != sel.len() { continue; }
+        let x = el::<T, N>(a);
+        let mut w = Wr::<T, N>(x); w.double_in_place();
+        out.line(&format!("C01 gdouble {} {}", pfx, h(a)), &h(&w.0 .0 .0));
+        out.line(&format!("C01 gdouble {} {}", pfx, h(a)), &h(&Wr::<T, N>(x).double().0 .0 .0));
+        let mut w = Wr::<T, N>(x); w.neg_in_place();
+        out.line(&format!("C01 gneg {} {}", pfx, h(a)), &h(&w.0 .0 .0));
+        out.line(&format!("C01 intobigint {} {}", pfx, h(a)), &h(&BigInt::<N>::from(x).0));
+        if !thorough && i != 2 && i + 1 != sel.len() { continue; }
+        let mut z = x; zeroize::Zeroize::zeroize(&mut z);
+        out.line(&format!("C01 zeroize {} {}", pfx, h(a)), &h(&z.0 .0));
+        out.line(&format!("C01 valid {} {}", pfx, h(a)), if x.check().is_ok() { "ok" } else { "err" });
+        out.line(&format!("C01 toelems {} {}", pfx, h(a)), &x.to_base_prime_field_elements().map(|e| h(&e.0 .0)).collect::<Vec<_>>().join(","));
+    }
+    out.line(&format!("C01 char {}", pfx), &hex_list_u64(F::<T, N>::characteristic()));
+    for len in [0usize, 1, 2, 3] {
+        let v: Vec<F<T, N>> = (0..len).map(|_| el::<T, N>(&pick(rng))).collect();
+        let l = if v.is_empty() { "_".to_string() } else { v.iter().map(|x| h(&x.0 .0)).collect::<Vec<_>>().join(",") };
+        out.line(&format!("C01 fromelems {} {}", pfx, l), &opt(F::<T, N>::from_base_prime_field_elems(v)));
+    }
+    // From<{u8,u16,u32,u64,u128,i8,i16,i32,i64,i128,bool}>: every width, MIN/MAX, negative values, values around p
+    {
+        let pl: u128 = { let l = T::MODULUS.0; (l[0] as u128) | (if N >= 2 { (l[1] as u128) << 64 } else { 0 }) };
+        let around: Vec<i128> = if feat && N <= 2 {
+            let q = pl as i128; // wraps for p ≥ 2^127: still a deterministic edge value
+            vec![q, q.wrapping_sub(1), q.wrapping_add(1), q.wrapping_neg(), q.wrapping_neg().wrapping_add(1), q.wrapping_neg().wrapping_sub(1),
+                 q.wrapping_mul(2).wrapping_add(1), q.wrapping_mul(-3), (pl >> 1) as i128, -((pl >> 1) as i128) - 1, 255, 256, -128, -129]
+        } else { vec![] };
+        macro_rules! from_w {
+            ($w:ty, $name:expr, $signed:expr) => {{
+                let (lo, hi) = (<$w>::MIN as i128, <$w>::MAX as i128);
+                let mut xs: Vec<i128> = if $signed { vec![-1, lo, hi] } else { vec![hi] };
+                if feat { if $signed { xs.extend_from_slice(&[0, 1, lo + 1]); } else { xs.extend_from_slice(&[0, 1, hi - 1]); } }
+                for _ in 0..(if thorough { 6 } else { 1 }) { xs.push((rng.next() as $w) as i128); }
+                for &c in &around { if c >= lo && c <= hi { xs.push(c); } }
+                xs.sort(); xs.dedup();
+                for x in xs {
+                    let v = x as $w;
+                    out.line(&format!("C01 fromw {} {} {}", pfx, $name, hi128(x)), &guarded(|| h(&F::<T, N>::from(v).0 .0)));
+                }
+            }};
+        }
+        from_w!(u8, "u8", false); from_w!(u16, "u16", false); from_w!(u32, "u32", false); from_w!(u64, "u64", false);
+        from_w!(i8, "i8", true); from_w!(i16, "i16", true); from_w!(i32, "i32", true); from_w!(i64, "i64", true);
+        from_w!(i128, "i128", true);
+        // u128 does not fit i128: separate
+        {
+            let mut xs: Vec<u128> = vec![0, u128::MAX];
+            if feat { xs.extend_from_slice(&[1, u128::MAX - 1, 1 << 127, (1 << 127) - 1]); }
+            if feat && N <= 2 { xs.extend_from_slice(&[pl, pl.wrapping_sub(1), pl.wrapping_add(1), pl.wrapping_mul(2), pl.wrapping_mul(3).wrapping_add(7)]); }
+            xs.push(((rng.next() as u128) << 64) | rng.next() as u128);
+            xs.sort(); xs.dedup();
+            for x in xs { out.line(&format!("C01 fromw {} u128 {:x}", pfx, x), &guarded(|| h(&F::<T, N>::from(x).0 .0))); }
+        }
+        out.line(&format!("C01 fromw {} bool 0", pfx), &guarded(|| h(&F::<T, N>::from(false).0 .0)));
+        out.line(&format!("C01 fromw {} bool 1", pfx), &guarded(|| h(&F::<T, N>::from(true).0 .0)));
+    }
+    // FromStr on arbitrary strings (error cases, signs, leading zeros, values ≥ p)
+    {
+        let mut strs: Vec<String> = vec!["".into(), "0".into(), "-1".into(), "01".into(), "12a".into(), format!("{}", p)];
+        if feat {
+            for s in ["1", "-0", "00", "-01", "+1", "1_0", "_1", "1_", "-", "+", "--1", "-+1", "+-1", "++1", "a", " 1", "1 ", "0x10", "1.5", "١"] { strs.push(s.into()); }
+            strs.push(format!("{}", &p - 1u8)); strs.push(format!("{}", &p + 1u8)); strs.push(format!("-{}", p)); strs.push(format!("-{}", &p + 5u8));
+            strs.push(format!("{}", (&p * &p) + 12345u32)); strs.push(format!("0{}", &p - 1u8));
+            strs.push(format!("1{}", "0".repeat(300)));
+        }
+        for s in strs {
+            let r = match F::<T, N>::from_str(&s) { Ok(e) => h(&e.0 .0), Err(_) => "err".into() };
+            out.line(&format!("C01 fromstrs {} {}", pfx, hex_list_u8(s.as_bytes())), &r);
+        }
+    }
 }
 
 macro_rules! zoo_ops {
